@@ -253,7 +253,7 @@ func disposalPaths(f *CFunc, p string) (ends []disposalEnd, decided bool) {
 }
 
 func checkC05C(c *Check, L *Loaded) {
-	P, err := LoadC(repoDir(), true)
+	P, err := LoadC(repoDirC(), true)
 	if err != nil {
 		c.Rule("R5.3", "C sources parse", 1).Und("lib", token.NoPos, err.Error())
 		return
